@@ -182,7 +182,9 @@ impl PurlShape for Shape {
             parts.subpath = SmallString::from(self.cfg.values[2].as_str());
         }
         if h & H_EMPTY_QUAL != 0 {
+            // one key that sorts before "checksum" and one that sorts after it
             parts.qualifiers.insert("Emptied", "").expect("valid key");
+            parts.qualifiers.insert("A.emptied", "").expect("valid key");
         }
         if h & H_VALID_QUAL != 0 {
             parts.qualifiers.insert("Hooked", "by hook & more").expect("valid key");
@@ -216,6 +218,7 @@ pub fn model_edit(cfg: &Cfg, seen: &PartsSnap) -> PartsSnap {
     }
     if h & H_EMPTY_QUAL != 0 {
         q.insert("emptied".into(), String::new());
+        q.insert("a.emptied".into(), String::new());
     }
     if h & H_VALID_QUAL != 0 {
         q.insert("hooked".into(), "by hook & more".into());
